@@ -19,13 +19,13 @@ PLAN = {
     "quick": {"configs": ["ext1", "ext0"], "nshards": 12, "nshards_ext0": 4, "timeout": 900},
     "thorough": {"configs": ["ext1", "ext0"], "nshards": 16, "timeout": 3400, "suite": ["ext1"]},
 }
-DECIDING = ["new.length", "init.in_units", "swap", "native_operand", "magnitude"]
+DECIDING = ["new.length", "init.in_units", "swap", "native_operand", "magnitude", "concurrent"]
 FLOORS = {"quick": {"new.length": 100000, "init.in_units": 100000, "swap": 20000, "native_operand": 5000,
-                    "magnitude": 20000},
+                    "magnitude": 20000, "concurrent": 20000},
           "thorough": {"new.length": 10**6, "init.in_units": 10**6, "swap": 200000, "native_operand": 50000,
-                       "magnitude": 200000}}
+                       "magnitude": 200000, "concurrent": 60000}}
 REQUIRED_HOOKS = ["Interval.__new__", "Interval.__init__"]
-TECHNIQUE = "runtime contract on Interval construction (every interval built anywhere) against the integer-microsecond difference of the endpoint instants"
+TECHNIQUE = "runtime contract on Interval construction (every interval built anywhere) against the integer-microsecond difference of the endpoint instants; shared objects used by six threads at once (1 us switch interval), every outcome compared with the single-threaded, contract-judged one"
 LEVEL_TEXT = ("every Interval constructed during the workloads (operators, diff, interval(), abs, native operands) is judged "
               "against the exact integer-us difference of the endpoints' own instants; pairs are placed around every "
               "transition kind and in both folds; held on what was observed")
@@ -138,6 +138,9 @@ def _pick(r, zn):
 
 def cases(M):
     r = gen.rng(M)
+    if M.shard % 2 == 0:
+        yield {"k": "threads", "seed": r.randrange(1 << 30), "n": 6000 if M.tier == "thorough" else 2000,
+               "zones": ["Europe/Paris", "America/New_York", "UTC", ("Australia/Lord_Howe", "Asia/Tehran", "Europe/London", "America/St_Johns")[M.shard // 2 % 4]]}
     thorough = M.tier == "thorough"
     names = gen.all_zones()
     if M.config == "ext0" and not thorough:
@@ -216,8 +219,44 @@ def _len_ok(iv, e):
     return abs(td_us(iv) - e) <= (0 if abs(e) < LIM else 64)
 
 
+def _threads(M, c):
+    """intervals between shared endpoint objects of a few zones built by six threads at once (fresh endpoints per chunk):
+    lengths and unit counts must be what a single thread gets (that reference call is judged by the ordinary contracts)"""
+    import random
+
+    from pvmon import conc
+
+    P = M.pendulum
+    r = random.Random(c["seed"])
+    zs = c["zones"]
+    items = []
+    for _ in range(c["n"]):
+        za, zb = r.choice(zs), r.choice(zs)
+        ua, ub = gen.modern_instant(r), gen.modern_instant(r)
+        if r.random() < 0.5:
+            z = tzdb.Z.get(za)
+            if z.trans:
+                t = z.trans[r.randrange(len(z.trans))][0] * US
+                if gen.ok_instant(t, 800):
+                    ua, ub = t + r.randrange(-7200 * US, 7200 * US), t + r.randrange(-7200 * US, 7200 * US)
+                    zb = za if r.random() < 0.7 else zb
+        items.append((gen.mk(za, ua), gen.mk(zb, ub)))
+
+    def one(it):
+        a, b = it
+        iv = b - a
+        return (td_us(iv), iv.in_seconds(), iv.in_minutes(), iv.in_hours(), td_us(a.diff(b, False)), td_us(a.diff(b)), td_us(P.interval(a, b)),
+                td_us(abs(a - b)), iv.years, iv.months, iv.remaining_days, iv.hours, iv.minutes, iv.remaining_seconds)
+
+    conc.differential(M, items, one, "C05/concurrent", show=lambda it: f"{it[0].isoformat()}[{it[0].timezone_name}] .. {it[1].isoformat()}[{it[1].timezone_name}]")
+    M.cls("threads", tuple(zs))
+    M.sample(c)
+
+
 def run(M, c):
     P = M.pendulum
+    if c.get("k") == "threads":
+        return _threads(M, c)
     if c.get("k") == "plain":
         return _run_plain(M, c)
     if c.get("k") == "edge":
